@@ -95,6 +95,9 @@ def in_domain(js, method, cfg=None):
                 return 'doctype-after-root'
             if not have_dt and method == 'xhtml' and e[2] and not e[3]:
                 return 'doctype-public-without-system'
+            if not have_dt and method == 'html' and ('>' in (e[2] or '') or '>' in (e[3] or '')):
+                # an HTML parser ends the declaration at the first '>' (known finding C08-doctype-gt-html)
+                return 'doctype-gt'
             have_dt = True
         if e[0] in ('S', 'T', 'SC'):
             started = True
